@@ -1254,10 +1254,30 @@ def inline_repo(ctx, tgt, fn, args, kws, star_kw, env):
     return T.NONE if t is None else t
 
 
+def _positionalise(ctx, tgt, args, kws):
+    """f(a, y=c, x=b) -> f(a, b, c) for a known function f(p, x, y): keyword arguments that continue the positional
+    parameters are moved into place, so that the call term does not depend on how the arguments were spelled"""
+    if not kws:
+        return args, kws
+    mod, _, qual = tgt.partition(".")
+    m = ctx.repo.modules.get(mod)
+    fn = m.functions.get(qual) if m is not None else None
+    if fn is None or fn.args.vararg is not None:
+        return args, kws
+    names = [x.arg for x in fn.args.posonlyargs + fn.args.args]
+    if any(isinstance(d, ast.Name) and d.id == "classmethod" for d in fn.decorator_list):
+        names = names[1:]
+    args, kws = list(args), dict(kws)
+    while len(args) < len(names) and names[len(args)] in kws:
+        args.append(kws.pop(names[len(args)]))
+    return args, kws
+
+
 def repo_call(ctx, tgt, args, kws, star_kw, env=None):
     fn = new_helper(ctx, tgt) if ctx.inline_depth > 0 else None
     if fn is not None:
         return inline_repo(ctx, tgt, fn, args, kws, star_kw, env)
+    args, kws = _positionalise(ctx, tgt, args, kws)
     extra = [("kw", k, v) for k, v in sorted(kws.items())] + [("kw", "**", v) for v in star_kw]
     t = T.call(tgt, *args, *extra)
     if tgt in RETURNS_EPOCH:
